@@ -21,7 +21,7 @@ composed from the record codecs of `B6.Model.Records` (L2) and the entry view of
   S2's verdict on a closed path is an input (`Feature.oracle`);
 * the reader: `find` (`findWithoutCache`, `newPhysicalFeatureFromTagged`, `MarshalledTags.AllTags`,
   `fromCompactValue`, `marshalledArea.fillGeometry`, `marshalledRelation.fillMembers`), `each`
-  (`EachFeature`), `location` (`FindLocationByID`), `relationsOf` (`FindRelationsByFeature`).
+  (`EachFeature`), `location` (`FindLocationByID`), `relationsOf` (`FindRelationsByFeature` = the relations among `findReferrers`, transitive).
 
 A Go panic is `BuildError.panic` / `none`.  Outside the model: file header, protobuf header, mmap, the
 search index, S2 (loop validity, orientation, `lastMarshalledLoopIsValid`: the loops of an explicit polygon that do not
@@ -678,39 +678,71 @@ def each (ix : Index) : List FID :=
         if t == 0 && e.tag == 2#64 then none
         else (nsDecode ix.nt (nssGet b.hdr t).toNat).map fun ns => ⟨t, ns, e.id⟩
 
-/-- the relation references recorded with a feature, as `FindRelationsByFeature` reads them -/
-def relationRefs (ix : Index) (id : FID) : Option (List Reference) :=
-  match (blocksFor ix id.typ id.ns).head? with
-  | none => some []
-  | some b =>
-    match id.typ with
-    | 0 =>
-      match findFirst b.entries id.val with
-      | some e => if e.tag == 1#64 then (FullPoint.dec b.hdr e.data).map (·.1.refs.relations) else some []
-      | none => some []
-    | 1 =>
-      match findFirstWithTag b.entries id.val 0#64 with
-      | some e => (Path.dec b.hdr e.data).map (·.1.relations)
-      | none => some []
-    | 2 =>
-      match findFirstWithTag b.entries id.val 0#64 with
-      | some e => (Area.dec b.hdr e.data).map (·.1.relations)
-      | none => some []
-    | _ =>
-      match findFirstWithTag b.entries id.val 0#64 with
-      | some e => (Relation.dec 1#64 b.hdr e.data).map (·.1.relations)
-      | none => some []
+/-- the ids a list of references names, as features of type `t` that are in the index (`newRelation` /
+`newArea` / `FindFeatureByID` not nil; a `Decode` that would panic never happens on a built index) -/
+def presentRefs (ix : Index) (t : Nat) (rs : List Reference) (lookupFn : FID → Bool) : List FID :=
+  (rs.filterMap fun r => (nsDecode ix.nt (splitTypeNs r.tn).2.toNat).map fun ns => (⟨t, ns, r.value⟩ : FID)).filter lookupFn
 
-/-- `FindRelationsByFeature`: the ids of the relations found (`none` = panic / nil relation) -/
-def relationsOf (ix : Index) (id : FID) : Option (List FID) := do
-  let rs ← relationRefs ix id
-  let rs := rs.eraseDups
-  rs.mapM fun r => do
-    let rid ← unRef ix.nt r
-    -- the first relation block with the namespace of the reference must hold it
-    let b ← (ix.blocks.filter fun b => b.typ == 3 && b.hdr.relation == (splitTypeNs r.tn).2).head?
-    let _ ← findFirstWithTag b.entries r.value 0#64
-    pure ⟨3, rid.ns, rid.val⟩
+/-- paths and relations recorded with a point entry: a common record has one path and no relations -/
+def pointRecordRefs (b : Block) (e : Entry) : List Reference × List Reference :=
+  if e.tag == 0#64 then
+    match CommonPoint.dec b.hdr e.data with
+    | some (r, _) => ([r.path], [])
+    | none => ([], [])
+  else if e.tag == 1#64 then
+    match FullPoint.dec b.hdr e.data with
+    | some (r, _) => (r.refs.paths, r.refs.relations)
+    | none => ([], [])
+  else
+    match PointReferences.dec b.hdr e.data with
+    | some (r, _) => (r.paths, r.relations)
+    | none => ([], [])
+
+/-- the direct referrers of `id` as `findReferrers` collects them (after fix afe76d0): the paths through a point
+(`findPathsByPoint`, present ones), the areas of a path (`fillAreasFromPath`), then the relations recorded with
+the feature in every block of its namespace (`findDirectRelations`; for points also on references-only records,
+each relation once per record) -/
+def directReferrers (ix : Index) (id : FID) : List FID :=
+  let bs := blocksFor ix id.typ id.ns
+  let isIn : FID → Bool := fun x => (lookup ix x).isSome
+  match id.typ with
+  | 0 =>
+    let recs := bs.filterMap fun b => (findFirst b.entries id.val).map (pointRecordRefs b)
+    (presentRefs ix 1 (recs.flatMap (·.1)) isIn).eraseDups ++
+      recs.flatMap fun r => presentRefs ix 3 r.2.eraseDups isIn
+  | 1 =>
+    let recs := bs.filterMap fun b => (findFirstWithTag b.entries id.val 0#64).bind fun e =>
+      if e.data.isEmpty then none else (Path.dec b.hdr e.data).map (·.1)
+    (recs.flatMap fun p => presentRefs ix 2 p.areas isIn) ++ recs.flatMap fun p => presentRefs ix 3 p.relations isIn
+  | 2 =>
+    bs.flatMap fun b => match findFirstWithTag b.entries id.val 0#64 with
+      | some e => (match Area.dec b.hdr e.data with
+          | some (a, _) => presentRefs ix 3 a.relations isIn
+          | none => [])
+      | none => []
+  | 3 =>
+    bs.flatMap fun b => match findFirstWithTag b.entries id.val 0#64 with
+      | some e => (match Relation.dec 1#64 b.hdr e.data with
+          | some (r, _) => presentRefs ix 3 r.relations isIn
+          | none => [])
+      | none => []
+  | _ => []
+
+/-- the breadth first search of `findReferrers`: `seen` starts empty, so a feature that refers to itself through a
+cycle is found too; `fuel` bounds the number of features taken off the queue -/
+def referrersLoop (direct : FID → List FID) : Nat → List FID → List FID → List FID
+  | 0, _, found => found
+  | _ + 1, [], found => found
+  | fuel + 1, next :: queue, found =>
+    let new := (direct next).foldl (fun acc x => if found.contains x || acc.contains x then acc else acc ++ [x]) []
+    referrersLoop direct fuel (queue ++ new) (found ++ new)
+
+/-- `findReferrers(id)` -/
+def referrers (ix : Index) (id : FID) : List FID :=
+  referrersLoop (directReferrers ix) ((ix.blocks.map (·.entries.length)).sum + 2) [id] []
+
+/-- `FindRelationsByFeature`: the relations among the (transitive) referrers, each once -/
+def relationsOf (ix : Index) (id : FID) : List FID := (referrers ix id).filter (·.typ == 3)
 
 /-! ## what the round trip must return -/
 
